@@ -44,7 +44,7 @@ JudgeRes(ev, j) ==
         why == VerifyWhy(inp, env)
     IN
     /\ (why = "" \/ Report("C01", "vm_reject", ev, j, why))
-    /\ ((IF ev.kind = "tr" THEN inp.kind \in {"trkey", "trscript"} ELSE inp.kind = ev.kind)
+    /\ ((IF ev.kind = "tr" THEN inp.kind \in {"trkey", "trscript"} ELSE IF ev.kind = "pkhU" THEN inp.kind = "pkh" ELSE inp.kind = ev.kind)
         \/ Report("C01", "spend_of_another_output_type", ev, j, inp.kind))
     /\ (ev.kind = "tr" \/ keypath \/ Report("C01", "key_spend_without_signature", ev, j, ""))
     /\ (inp.kind # "trkey" \/ keypath \/ Report("C01", "key_path_spend_without_internal_key_signature", ev, j, ""))
@@ -80,6 +80,18 @@ JudgeInterp(ev, j) ==
     /\ (~x.res.ok \/ why = "" \/ Report("C13", "accepts_invalid_spend", ev, j, <<x.mut, why>>))
     /\ (x.mut # "id" \/ ~sane \/ r.mode # "nonmall" \/ x.res.ok \/ Report("C13", "rejects_library_satisfaction", ev, j, x.res.err))
 
+\* C17: completing the plan built from the same assets gives exactly what the satisfier gives
+\* (results come in the order desc, plan for every world and mode)
+JudgePlanEq(ev, j) ==
+  LET r == ev.res[j] IN
+  r.route # "plan" \/ j = 1 \/
+  LET s == ev.res[j - 1] IN
+  s.route # "desc" \/ s.mode # r.mode \/ s.w # r.w \/
+  /\ ((r.r = "ok") = (s.r = "ok") \/ r.r = "panic" \/ s.r = "panic"
+      \/ Report("C17", IF r.r = "ok" THEN "plan_without_satisfaction" ELSE "satisfaction_without_plan", ev, j, r.mode))
+  /\ (r.r # "ok" \/ s.r # "ok" \/ (r.inp.stack = s.inp.stack /\ r.inp.script = s.inp.script /\ r.inp.kind = s.inp.kind)
+      \/ Report("C17", "plan_completion_differs_from_satisfier", ev, j, r.mode))
+
 \* C07 on the descriptor: when the library lifts it, the policy is true in exactly the worlds in
 \* which the output can be spent (key path or some leaf); refusing to lift is always allowed
 JudgeLift(ev) ==
@@ -93,7 +105,7 @@ JudgeLift(ev) ==
 JudgeEvent(ev) ==
   IF ev.parse # "ok"
   THEN Report("INFO", "parse_" \o ev.parse, ev, 0, ev.msg)
-  ELSE /\ \A j \in 1..Len(ev.res) : JudgeRes(ev, j) /\ JudgeInterp(ev, j)
+  ELSE /\ \A j \in 1..Len(ev.res) : JudgeRes(ev, j) /\ JudgeInterp(ev, j) /\ JudgePlanEq(ev, j)
        /\ JudgeLift(ev)
 
 Inv == i > 0 => JudgeEvent(Rec[i])
